@@ -245,6 +245,19 @@ def run_io(spec, res):
                     ev, ei = list(s3['vars']), list(s3['it'])
                 else:
                     res['nontrivial'].append(['io', lab, split])
+        # ---- the chunk-joining helper of the reader on a caller-owned dictionary
+        from aurel import reading
+        full = rng.normal(size=(6, 4, 5))
+        chunks = {(0, 0, 0): np.transpose(full[:3], (2, 1, 0)).copy(),
+                  (3, 0, 0): np.transpose(full[3:], (2, 1, 0)).copy()}
+        snapc = {k: v.copy() for k, v in chunks.items()}
+        with common.Quiet():
+            reading.join_chunks(chunks)
+        res['observations'] += 1
+        if list(chunks) != list(snapc) or any(not np.array_equal(chunks[k], snapc[k]) for k in snapc):
+            common.add_violation(res, "join_chunks: dictionary of chunks modified", {})
+        else:
+            res['nontrivial'].append(['io', 'join_chunks dict'])
     finally:
         shutil.rmtree(tmp, ignore_errors=True)
 
@@ -329,6 +342,47 @@ def run_excised(spec, res):
         ledger.register(rel.data, "cached:", k)
         hits += ledger.audit(f"x:{k}")
         res['observations'] += len(ledger.entries)
+    # ---- Weyl scalars supplied by the user with an identically vanishing Psi4:
+    # what was supplied / handed out keeps its order and identity
+    P = [(rng.normal(size=x.shape) + 1j * rng.normal(size=x.shape)) for _ in range(4)] + \
+        [np.zeros(x.shape, dtype=complex)]
+    rel2 = harness.make_rel(fd, {'Weyl_Psi': P}, lmax=2)
+    ids = [id(a) for a in P]
+    ledger2 = monitor.ArrayLedger()
+    ledger2.register(P, "input:Weyl_Psi", "start")
+    for k in ('Weyl_invariants', 'Weyl_Psi'):
+        with common.Quiet(), np.errstate(all='ignore'):
+            try:
+                rel2[k]
+            except Exception as e:
+                res['notes'].append(f"{k} raises {type(e).__name__} with supplied Weyl_Psi")
+        res['observations'] += 1
+        now = rel2.data.get('Weyl_Psi')
+        if [id(a) for a in P] != ids or (now is not None and [id(a) for a in now] != ids) \
+                or ledger2.audit(k):
+            common.add_violation(res, f"the supplied list of Weyl scalars was re-ordered / modified by request {k}", {})
+            break
+    # ---- a request that fails half-way (unknown interpolation method) leaves
+    # the field it was given as it was
+    from aurel import numerical
+    fld = (rng.normal(size=x.shape) * 37.5)
+    keep = fld.copy()
+    axes = (fd.xarray, fd.yarray, fd.zarray)
+    tgt = (np.array([0.1, 0.2]), np.array([0.0, 0.3]), np.array([-0.2, 0.1]))
+    for meth in ('no-such-method', 'quintic'):
+        try:
+            with common.Quiet():
+                numerical.interpolate(fld[:5, :5, :5] if meth == 'quintic' else fld,
+                                      tuple(a[:5] for a in axes) if meth == 'quintic' else axes,
+                                      tuple(t * 0 + a[2] for t, a in zip(tgt, axes)) if meth == 'quintic' else tgt,
+                                      method=meth)
+        except Exception:
+            pass
+        res['observations'] += 1
+        if not np.array_equal(fld, keep):
+            common.add_violation(res, "numerical.interpolate left its input field modified after a failed call",
+                                 {"method": meth})
+            break
     for b in hits:
         nm = b['role'].split(':', 1)[1]
         common.add_violation(res, f"in-place change of {b['role'].split(':')[0]} array "
